@@ -230,9 +230,9 @@ func Gofmt(p *Prog) error {
 // C13: respelling of use-site type expressions into identical types
 
 type RespellInfo struct {
-	LocalAlias, ThirdPkgAlias, Paren, ImportRename, Recv, FuncLocalAlias, AliasChain int
-	FuncLocalSites                                                                   []int        // sites whose mention goes through an alias declared right before them
-	Sites                                                                            map[int]bool // site ids whose spelling changed
+	LocalAlias, ThirdPkgAlias, Paren, ImportRename, Recv, FuncLocalAlias, AliasChain, PtrAlias int
+	FuncLocalSites                                                                             []int        // sites whose mention goes through an alias declared right before them
+	Sites                                                                                      map[int]bool // site ids whose spelling changed
 }
 
 // allRefs lists every type mention that may be respelled, with the file and
@@ -244,6 +244,7 @@ type refSlot struct {
 	parenOK bool
 	aliasOK bool
 	recv    bool // a method receiver: parentheses and local aliases only
+	ptrVar  bool // var x *T: the pointer type as a whole can be named by an alias
 	inBody  bool // a statement inside a function body: a function-local alias can be declared right before it
 }
 
@@ -254,7 +255,7 @@ func (p *Prog) refSlots() []refSlot {
 		if s.Ref == nil || s.Type == nil {
 			return
 		}
-		slot := refSlot{ref: s.Ref, file: si.Ctx.File, site: s.ID, aliasOK: true}
+		slot := refSlot{ref: s.Ref, file: si.Ctx.File, site: s.ID, aliasOK: true, ptrVar: s.Kind == "varptr"}
 		switch s.Kind {
 		case "lit", "litptr", "new", "var", "var2", "varptr", "varblank", "elided.slice", "elided.ptrslice", "elided.map", "conv", "var.composite", "lit.composite":
 			slot.inBody = si.Ctx.Func != nil && s.Form != "pkgvar" && s.Form != "return"
@@ -312,6 +313,21 @@ func Respell(t *rapid.T, p *Prog) RespellInfo {
 			info.AliasChain++
 		}
 		localAlias[user][td] = a
+		return a
+	}
+	ptrAlias := map[*Pkg]map[*TypeDecl]*TypeDecl{}
+	getLocalPtr := func(user *Pkg, td *TypeDecl) *TypeDecl {
+		if a := ptrAlias[user][td]; a != nil {
+			return a
+		}
+		getLocal(user, td) // makes sure the alias file exists
+		f := aliasFile[user]
+		a := &TypeDecl{ID: p.NewID(), Name: fmt.Sprintf("PAl%s_%d", td.Name, len(f.Decls)), Pkg: user, Kind: td.Kind, AliasOf: &TypeRef{Type: td, Ptr: true}}
+		f.Decls = append(f.Decls, a)
+		if ptrAlias[user] == nil {
+			ptrAlias[user] = map[*TypeDecl]*TypeDecl{}
+		}
+		ptrAlias[user][td] = a
 		return a
 	}
 	getThird := func(td *TypeDecl) *TypeDecl {
@@ -377,6 +393,14 @@ func Respell(t *rapid.T, p *Prog) RespellInfo {
 			continue
 		}
 		switch rapid.IntRange(0, 9).Draw(t, "respell") {
+		case 5:
+			// type PAl = *T: the pointer type itself behind an alias (var x PAl declares a pointer)
+			if (sl.ref.Ptr && sl.ref.Wrap == "" && !sl.ref.ParenAll && !sl.ref.Paren) || sl.ptrVar {
+				sl.ref.ViaPtr = getLocalPtr(user, sl.ref.Type)
+				info.LocalAlias++
+				info.PtrAlias++
+				info.Sites[sl.site] = true
+			}
 		case 4:
 			if sl.inBody {
 				// type lAlN = pkg.T declared in the function body right before the statement
